@@ -195,6 +195,12 @@ package control
 //@   at call ChooseDialTarget#1 assert a1 == p.Outbound && a2 == p.Dest && a3 == p.Domain
 //@   at call Route#1 assert outboundIndex == consts.OutboundControlPlaneRouting && a1 == p.Src && a2 == p.Dest && a3 == p.Domain
 //@   at call ChooseDialTarget#2 assert a1 == outboundIndex && a2 == dst && a3 == domain
+// C15 (retry exclusion): both selections - the first one and the alternate-IP-family fallback - are made on
+// the routed outbound group and carry the caller's exclusion set; the fallback never insists on the IP version.
+//@   at call SelectWithExclusionResult#1 assert a0 == outbound && a1 == selectionNetworkType && a2 == strictIpVersion && a3 == p.Excluded
+//@   at call SelectWithExclusionResult#2 assert a0 == outbound && a1 == altType && a2 == false && a3 == p.Excluded
+//@   at call alternateNetworkType#1 assert a0 == selectionNetworkType
+//@   ensures calls("SelectWithExclusionResult") <= 2
 
 // C18 (genuineness window): DNS knowledge is remembered until the record's own TTL runs out, not until a
 // configured fixed TTL does.
